@@ -90,6 +90,28 @@ func (ps *PairSpec) CheckAcquire(c CallSite, path string, assume func(ssa.Value)
 			return true, "released by a defer registered before the acquire"
 		}
 	}
+	// correlated branches: conditions already decided on the way to the acquire
+	// (e.g. `if g != nil { g.Start() } ... if g != nil { g.Done() }`)
+	decided := map[string]bool{}
+	for _, f := range FactsAt(c.Block()) {
+		if k := CondKey(f.Cond); k != "" {
+			decided[k] = f.Val
+		}
+	}
+	userAssume := assume
+	assume = func(cond ssa.Value) (bool, bool) {
+		if userAssume != nil {
+			if k, v := userAssume(cond); k {
+				return k, v
+			}
+		}
+		if k := CondKey(cond); k != "" {
+			if v, ok := decided[k]; ok {
+				return true, v
+			}
+		}
+		return false, false
+	}
 	leaks := LeakingExits(PathQuery{
 		Start:        c.Instr,
 		Stop:         func(in ssa.Instruction) bool { return ps.stop(in, path, 0) },
